@@ -284,7 +284,7 @@ def judge(ctx, binary, scripts, traces, tag, seen, flags):
     rejection by re-execution; report."""
     def one(it):
         i, ev = it
-        return validate_history_trace(ctx, SPEC, "CacheTrace", ev, tag="%s%d" % (tag, i))
+        return validate_history_trace(ctx, SPEC, "CacheTrace", ev, tag="%s%d" % (tag, i), deque=True)
     res = parallel(one, list(enumerate(traces)), n=6)
     ctx.log("%s: %d traces (%d events) validated against CacheP" % (tag, len(traces), sum(len(t) for t in traces)))
     for (acc, rejected, rounds), ev, sc in zip(res, traces, scripts):
@@ -304,7 +304,7 @@ def judge(ctx, binary, scripts, traces, tag, seen, flags):
             reproduced = False
             for attempt in range(1 if not w["concurrent"] else 20):
                 t2 = execute(ctx, binary, script, "%s-repro" % tag)[0]
-                a2, r2, _ = validate_history_trace(ctx, SPEC, "CacheTrace", t2, tag="%s-repro" % tag)
+                a2, r2, _ = validate_history_trace(ctx, SPEC, "CacheTrace", t2, tag="%s-repro" % tag, deque=True)
                 if r2:
                     reproduced = True
                     break
@@ -316,7 +316,7 @@ def judge(ctx, binary, scripts, traces, tag, seen, flags):
         i, ev = it
         for kf, trunc in flags:
             e2 = [dict(ev[0], kf=kf, trunc=trunc, persec=PERSEC)] + ev[1:]
-            acc, rej, _ = validate_history_trace(ctx, SPEC, "CacheITrace", e2, tag="%s-i%d-%d%d" % (tag, i, kf, trunc), max_rounds=1)
+            acc, rej, _ = validate_history_trace(ctx, SPEC, "CacheITrace", e2, tag="%s-i%d-%d%d" % (tag, i, kf, trunc), max_rounds=1, timeout=300, deque=True)
             if not rej:
                 return None
         return rej[0]
@@ -455,7 +455,7 @@ def run(ctx):
         bad2 = [e for i, e in enumerate(ev) if i != k2]
         bad3 = [dict(e) for e in ev]; bad3[k]["m"] = "DELETE"
         for nm, b in (("value", bad1), ("dropped-response", bad2), ("key", bad3)):
-            _, rej, _ = validate_history_trace(ctx, SPEC, "CacheTrace", b, tag="self-" + nm, max_rounds=1)
+            _, rej, _ = validate_history_trace(ctx, SPEC, "CacheTrace", b, tag="self-" + nm, max_rounds=1, deque=True)
             if not rej:
                 raise Broken("self-test: corrupted trace (%s) accepted" % nm)
         ctx.notes.append("self-test: corrupted value tag, dropped response event and corrupted key were all rejected")
@@ -465,7 +465,7 @@ def replay(ctx, path):
     obj = json.load(open(path))
     binary = ctx.build_harness("c12")
     t = execute(ctx, binary, obj["replay"]["script"], "replay")[0]
-    acc, rej, _ = validate_history_trace(ctx, SPEC, "CacheTrace", t, tag="replay")
+    acc, rej, _ = validate_history_trace(ctx, SPEC, "CacheTrace", t, tag="replay", deque=True)
     for e in t:
         print(json.dumps(e))
     if rej:
